@@ -206,7 +206,9 @@ CLAIMED = {
                 'Every outcome assignment over <= 5 URIs in <= 3 sources is run on the implementation under an interposed requests layer and on the model inside Coq',
         "design_ref": 'DESIGN.md 5/C17',
         "note": 'trusted: Coq kernel, interposed requests (status_code/text, Timeout subclasses), TLE lines abstracted to 5 classes; known finding C17:body-line-'
-                'starting-with-1-not-tle is modelled faithfully and proved as C17_line1_refuted',
+                'starting-with-1-not-tle is modelled faithfully and proved as C17_line1_refuted; additionally translator/gen_download.py (fail-closed AST extraction) '
+                'REGENERATES the per-URI action of fetch_plain_tle (timeout handler, status test, the two arms) on every run and checks the loop structure around it; '
+                "the model's loop is proved to be the application of that action at every URI (C17_source_*)",
         "technique": 'Coq proof by induction over the fetch loops + exhaustive Coq-evaluated correspondence',
     },
     "C18": {
